@@ -1297,7 +1297,6 @@ class NodeListComprehension:
         values = getCollectionValue(lst, self.what, self.pos)
         for listValue in values:
             localEnv.put(self.identifier, listValue)
-            value = self.valueExpr.evaluate(localEnv)
             if self.conditionExpr:
                 condition = self.conditionExpr.evaluate(localEnv)
                 if not condition.isBoolean():
@@ -1308,9 +1307,9 @@ class NodeListComprehension:
                         self.pos,
                     )
                 if condition.value:
-                    result.addItem(value)
+                    result.addItem(self.valueExpr.evaluate(localEnv))
             else:
-                result.addItem(value)
+                result.addItem(self.valueExpr.evaluate(localEnv))
         return result
 
     def __repr__(self):
@@ -1380,7 +1379,6 @@ class NodeListComprehensionParallel:
             listValue2 = values2[i] if i < len(values2) else None
             localEnv.put(self.identifier1, listValue1)
             localEnv.put(self.identifier2, listValue2)
-            value = self.valueExpr.evaluate(localEnv)
             if self.conditionExpr:
                 condition = self.conditionExpr.evaluate(localEnv)
                 if not condition.isBoolean():
@@ -1391,9 +1389,9 @@ class NodeListComprehensionParallel:
                         self.pos,
                     )
                 if condition.value:
-                    result.addItem(value)
+                    result.addItem(self.valueExpr.evaluate(localEnv))
             else:
-                result.addItem(value)
+                result.addItem(self.valueExpr.evaluate(localEnv))
         return result
 
     def __repr__(self):
@@ -1470,7 +1468,6 @@ class NodeListComprehensionProduct:
             localEnv.put(self.identifier1, listValue1)
             for listValue2 in values2:
                 localEnv.put(self.identifier2, listValue2)
-                value = self.valueExpr.evaluate(localEnv)
                 if self.conditionExpr:
                     condition = self.conditionExpr.evaluate(localEnv)
                     if not condition.isBoolean():
@@ -1481,9 +1478,9 @@ class NodeListComprehensionProduct:
                             self.pos,
                         )
                     if condition.value:
-                        result.addItem(value)
+                        result.addItem(self.valueExpr.evaluate(localEnv))
                 else:
-                    result.addItem(value)
+                    result.addItem(self.valueExpr.evaluate(localEnv))
         return result
 
     def __repr__(self):
@@ -1600,8 +1597,6 @@ class NodeMapComprehension:
         values = getCollectionValue(lst, self.what, self.pos)
         for listValue in values:
             localEnv.put(self.identifier, listValue)
-            key = self.keyExpr.evaluate(localEnv)
-            value = self.valueExpr.evaluate(localEnv)
             if self.conditionExpr:
                 condition = self.conditionExpr.evaluate(localEnv)
                 if not condition.isBoolean():
@@ -1612,9 +1607,15 @@ class NodeMapComprehension:
                         self.pos,
                     )
                 if condition.value:
-                    result.addItem(key, value)
+                    result.addItem(
+                        self.keyExpr.evaluate(localEnv),
+                        self.valueExpr.evaluate(localEnv),
+                    )
             else:
-                result.addItem(key, value)
+                result.addItem(
+                    self.keyExpr.evaluate(localEnv),
+                    self.valueExpr.evaluate(localEnv),
+                )
         return result
 
     def __repr__(self):
@@ -1961,7 +1962,6 @@ class NodeSetComprehension:
         values = getCollectionValue(lst, self.what, self.pos)
         for listValue in values:
             localEnv.put(self.identifier, listValue)
-            value = self.valueExpr.evaluate(localEnv)
             if self.conditionExpr:
                 condition = self.conditionExpr.evaluate(localEnv)
                 if not condition.isBoolean():
@@ -1972,9 +1972,9 @@ class NodeSetComprehension:
                         self.pos,
                     )
                 if condition.value:
-                    result.addItem(value)
+                    result.addItem(self.valueExpr.evaluate(localEnv))
             else:
-                result.addItem(value)
+                result.addItem(self.valueExpr.evaluate(localEnv))
         return result
 
     def __repr__(self):
@@ -2037,7 +2037,6 @@ class NodeSetComprehensionParallel:
             localEnv.put(
                 self.identifier2, values2[i] if i < len(values2) else NULL
             )
-            value = self.valueExpr.evaluate(localEnv)
             if self.conditionExpr:
                 condition = self.conditionExpr.evaluate(localEnv)
                 if not condition.isBoolean():
@@ -2048,9 +2047,9 @@ class NodeSetComprehensionParallel:
                         self.pos,
                     )
                 if condition.value:
-                    result.addItem(value)
+                    result.addItem(self.valueExpr.evaluate(localEnv))
             else:
-                result.addItem(value)
+                result.addItem(self.valueExpr.evaluate(localEnv))
         return result
 
     def __repr__(self):
@@ -2121,7 +2120,6 @@ class NodeSetComprehensionProduct:
             localEnv.put(self.identifier1, value1)
             for value2 in values2:
                 localEnv.put(self.identifier2, value2)
-                value = self.valueExpr.evaluate(localEnv)
                 if self.conditionExpr:
                     condition = self.conditionExpr.evaluate(localEnv)
                     if not condition.isBoolean():
@@ -2132,9 +2130,9 @@ class NodeSetComprehensionProduct:
                             self.pos,
                         )
                     if condition.value:
-                        result.addItem(value)
+                        result.addItem(self.valueExpr.evaluate(localEnv))
                 else:
-                    result.addItem(value)
+                    result.addItem(self.valueExpr.evaluate(localEnv))
         return result
 
     def __repr__(self):
